@@ -78,8 +78,22 @@ Definition ref_cleanup (v : value) : value :=
   | _ => v
   end.
 
-(* ReferenceListColumn._clean_up_value: the same text as the str pre-processing of ReferenceList.do_convert *)
-Definition reflist_cleanup (v : value) : value := reflist_pre orc v.
+(* ReferenceListColumn._clean_up_value: like the str pre-processing of ReferenceList.do_convert, but a JSON list is
+   taken only when all its items can be row ids (positive short ints) *)
+Definition is_pos_short_int (v : value) : bool :=
+  match v with PInt _ z => (0 <? z) && is_int_short z | PBool b => b | _ => false end.
+
+Definition reflist_cleanup (v0 : value) : value :=
+  match v0 with
+  | PStr _ s =>
+      if starts_with (Str "[") s then
+        match o_json_loads orc s with
+        | Some (PList k l) => if forallb is_pos_short_int l then PList k l else v0
+        | _ => v0
+        end
+      else match reclist_from_repr orc s with Ok rl => rl | Raise _ => v0 end
+  | _ => v0
+  end.
 
 Definition col_set (T : ctype) (v : value) : result value :=
   match T with
@@ -128,7 +142,9 @@ Definition e_form_ok (fuel : nat) (enc : value) : bool :=
   end.
 
 (* .error of decode_object(enc) when that is a RaisedException: None after decode_args, the exception caught
-   by decode_object otherwise (its class name is the _name of the result) *)
+   by decode_object otherwise (its class name is the _name of the result).
+   Repaired behaviour (notes/proposed_fixes/C07-decoded-error-stand-in.diff: decode_args keeps a stand-in exception
+   of a class with the saved name): replace `None` in the first branch below by `Some n`. *)
 Definition decoded_err (fuel : nat) (enc : value) : option str :=
   match decode_f orc fuel enc with
   | PErr (PStr _ n) _ _ _ => if e_form_ok fuel enc then None else Some n
